@@ -212,6 +212,7 @@ pub fn rsigtx(rng: &mut ChaCha20Rng, tags: &mut Vec<String>) -> Transaction {
     let mut tx = rtx(rng, Feat { big: false, no_witness: false }, tags);
     let nin = pk!(rng, [1usize, 1, 2, 2, 3, 4, 5]);
     while tx.input.len() < nin { tx.input.push(rtxin(rng, Feat::default(), tags)); }
+    tx.input.truncate(nin);
     if tx.output.len() > 5 { tx.output.truncate(5); }
     tx
 }
